@@ -74,3 +74,28 @@ Theorem C10_code_tie :
      CFuns.polyseed_enable_features r0 (Z.of_N m) = (Z.of_N (fst (enable_features m)), Z.of_N (snd (enable_features m)))).
 Proof. exact (conj tie_make_features (conj tie_get_features (conj tie_is_encrypted (conj tie_features_supported tie_enable_features)))). Qed.
 Print Assumptions C10_code_tie.
+
+(* ---- the tie to the code: src/polyseed.c as TRANSLATED on this run (Gen/CApi.v) ---- *)
+From Coq Require Import String.
+From PS Require Import Base GFDefs PackDefs StoreDefs MiscDefs StrDefs LangDefs ApiDefs GFProofs PackProofs StoreProofs CTieBase CTieLang CTiePhrase CTieSplit CTieApi CTieDecode.
+From PS.Gen Require Import Consts PrivConsts Langs.
+From PS.Gen Require CFuns.
+From PS.Gen Require CApi.
+
+(* polyseed_get_feature as translated *)
+Theorem C10_code_tie_api_get_feature :
+  forall (d : data) (m : N),
+         CApi.polyseed_get_feature (Z.of_N (d_birthday d)) (Z.of_N (d_features d)) 
+           (map Z.of_N (d_secret d)) (Z.of_N (d_checksum d)) (Z.of_N m) =
+         Z.of_N (get_features (d_features d) m).
+Proof. exact @tie_get_feature. Qed.
+Print Assumptions C10_code_tie_api_get_feature.
+
+(* polyseed_is_encrypted as translated *)
+Theorem C10_code_tie_api_is_encrypted :
+  forall d : data,
+         CApi.polyseed_is_encrypted (Z.of_N (d_birthday d)) (Z.of_N (d_features d)) 
+           (map Z.of_N (d_secret d)) (Z.of_N (d_checksum d)) =
+         (if is_encrypted (d_features d) then 1%Z else 0%Z).
+Proof. exact @tie_is_encrypted_api. Qed.
+Print Assumptions C10_code_tie_api_is_encrypted.
